@@ -271,8 +271,10 @@ def streams(pid, tier, seed):
         add("mixed", mixed_stream(seed, 15000 if q else 300000)[0])
         add("text", text_stream(seed + 1, 15000 if q else 300000, toggles=True))
         add("textN", text_stream(seed + 2, 8000 if q else 150000, toggles=True), "n")
+        add("overrange", gen.sweep_overrange())
     elif pid == "C17":
         add("sweepSet", gen.sweep_settings())
+        add("overrange", gen.sweep_overrange())
         add("mixed", mixed_stream(seed, 15000 if q else 300000)[0])
     elif pid == "C18":
         pass
